@@ -1500,3 +1500,350 @@ Proof.
   - apply (parse_region_complete _ t name (Some s) None L); try assumption; try lia.
     apply parse_format_roundtrip_open; [assumption|lia].
 Qed.
+
+(** ------------------------------------------------------------ the accepted language, exactly *)
+(** maximal munch: the character after a COORD token cannot extend it *)
+Definition munch_end (t : ctok) (r : str) : Prop :=
+  match r with
+  | [] => True
+  | x :: _ => is_alpha x = false /\
+              (t_al t = [] -> if t_dot t then is_digit x = false
+                              else is_digit x = false /\ is_comma x = false /\ is_dot x = false)
+  end.
+
+Lemma tok_end_munch : forall t r, tok_end r -> munch_end t r.
+Proof. intros t [|x r] H; simpl in *; [exact I|]. destruct H as (A & B & C & D). split; [assumption|]. intros _. destruct (t_dot t); auto. Qed.
+
+Lemma stops_drop_while : forall {A} (p : A -> bool) l, stops p (drop_while p l).
+Proof.
+  intros A p l. destruct (drop_while p l) as [|x r] eqn:E; simpl; [exact I|].
+  exact (drop_while_head _ _ _ _ E).
+Qed.
+
+Lemma match_at_coord_gen : forall ws ip hasdot fd al r,
+  forallb is_blank ws = true -> ip <> [] -> forallb is_digit_or_comma ip = true ->
+  forallb is_digit fd = true -> forallb is_alpha al = true ->
+  stops is_digit_or_comma (frac_part hasdot fd ++ al ++ r) ->
+  (hasdot = true -> stops is_digit (al ++ r)) ->
+  (hasdot = false -> stops is_dot (al ++ r)) ->
+  stops is_alpha r ->
+  match_at (ws ++ ip ++ frac_part hasdot fd ++ al ++ r) = Some ((COORD, ip ++ frac_part hasdot fd ++ al), r).
+Proof.
+  intros ws ip hasdot fd al r Hws Hne Hip Hfd Hal H1 H2 H3 H4.
+  destruct ip as [|c ip']; [congruence|]. clear Hne.
+  simpl in Hip. apply andb_true_iff in Hip as [Hc Hip].
+  unfold match_at.
+  rewrite drop_while_app; [|assumption|simpl; cls; lia].
+  change ((c :: ip') ++ frac_part hasdot fd ++ al ++ r) with (c :: (ip' ++ frac_part hasdot fd ++ al ++ r)).
+  cbv iota beta.
+  assert (is_hyphen c = false) as -> by (cls; lia). rewrite Hc.
+  simpl take_while. simpl drop_while. rewrite Hc.
+  rewrite take_while_app by assumption. rewrite drop_while_app by assumption.
+  destruct hasdot; simpl frac_part.
+  - specialize (H2 eq_refl). simpl.
+    rewrite (take_while_app is_digit fd), (drop_while_app is_digit fd) by assumption.
+    rewrite take_while_app, drop_while_app by assumption.
+    reflexivity.
+  - specialize (H3 eq_refl). simpl app.
+    destruct (al ++ r) as [|d q] eqn:Eq.
+    + destruct al; [|discriminate]. simpl in Eq. subst r. reflexivity.
+    + simpl in H3. rewrite H3. rewrite <- Eq.
+      rewrite take_while_app, drop_while_app by assumption. reflexivity.
+Qed.
+
+Lemma match_at_ctok_munch : forall ws t r,
+  forallb is_blank ws = true -> ctok_ok_b t = true -> munch_end t r ->
+  match_at (ws ++ ctok_str t ++ r) = Some ((COORD, ctok_str t), r).
+Proof.
+  intros ws [ip hasdot fd al] r Hws Ht Hr.
+  apply ctok_ok_spec in Ht as (Hne & Hip & Hfd & Hal & Hnd). simpl in *.
+  unfold ctok_str. simpl. rewrite <- !app_assoc.
+  apply match_at_coord_gen; try assumption.
+  - destruct hasdot; simpl; [reflexivity|].
+    destruct al as [|x al']; simpl.
+    + destruct r as [|y r']; simpl in *; [exact I|]. destruct Hr as [_ Hd]. specialize (Hd eq_refl).
+      simpl in Hd. cls. lia.
+    + simpl in Hal. apply andb_true_iff in Hal as [Hx _]. cls. lia.
+  - intros ->. destruct al as [|x al']; simpl.
+    + destruct r as [|y r']; simpl in *; [exact I|]. destruct Hr as [_ Hd]. now specialize (Hd eq_refl).
+    + simpl in Hal. apply andb_true_iff in Hal as [Hx _]. cls. lia.
+  - intros ->. destruct al as [|x al']; simpl.
+    + destruct r as [|y r']; simpl in *; [exact I|]. destruct Hr as [_ Hd]. specialize (Hd eq_refl).
+      simpl in Hd. tauto.
+    + simpl in Hal. apply andb_true_iff in Hal as [Hx _]. cls. lia.
+  - destruct r as [|y r']; simpl in *; [exact I|]. tauto.
+Qed.
+
+Lemma is_hyphen_eq : forall c, is_hyphen c = true -> c = c_hyphen.
+Proof. intros c H. apply code_inj. rewrite c_hyphen_code. cls. lia. Qed.
+Lemma is_dot_eq : forall c, is_dot c = true -> c = c_dot.
+Proof. intros c H. apply code_inj. rewrite c_dot_code. cls. lia. Qed.
+Lemma is_colon_eq : forall c, is_colon c = true -> c = c_colon.
+Proof. intros c H. apply code_inj. rewrite c_colon_code. cls. lia. Qed.
+
+(** what a match tells about the text it was found in *)
+Lemma match_at_inv : forall s ty x rest, match_at s = Some ((ty, x), rest) ->
+  match ty with
+  | HYPHEN => exists ws, forallb is_blank ws = true /\ x = [c_hyphen] /\ s = ws ++ c_hyphen :: rest
+  | COORD => exists ws t, forallb is_blank ws = true /\ ctok_ok_b t = true /\ x = ctok_str t /\
+                          s = ws ++ ctok_str t ++ rest /\ munch_end t rest
+  | OTHER => True
+  end.
+Proof.
+  intros s ty x rest. unfold match_at.
+  pose proof (take_drop_while is_blank s) as TD.
+  pose proof (take_while_forallb is_blank s) as TB.
+  destruct (drop_while is_blank s) as [|c r'] eqn:E.
+  - destruct (last_non_newline s) as [[c0 r0]|]; [|discriminate]. intros H; inversion H; subst. exact I.
+  - destruct (is_hyphen c) eqn:Hh.
+    + intros H; inversion H; subst. apply is_hyphen_eq in Hh. subst c.
+      exists (take_while is_blank s). auto.
+    + destruct (is_digit_or_comma c) eqn:Hdc; [|intros H; inversion H; subst; exact I].
+      cbv zeta.
+      pose proof (take_drop_while is_digit_or_comma (c :: r')) as TD1.
+      pose proof (take_while_forallb is_digit_or_comma (c :: r')) as TB1.
+      assert (Hne : take_while is_digit_or_comma (c :: r') <> []) by (simpl; rewrite Hdc; discriminate).
+      pose proof (stops_drop_while is_digit_or_comma (c :: r')) as ST1.
+      set (ip := take_while is_digit_or_comma (c :: r')) in *.
+      destruct (drop_while is_digit_or_comma (c :: r')) as [|d r1'] eqn:E1.
+      * (* nothing follows the integer part *)
+        intros H. injection H as H1 H2 H3. subst ty x rest.
+        exists (take_while is_blank s), (mk_ctok ip false [] []).
+        unfold ctok_str, ctok_ok_b. simpl. rewrite !app_nil_r in *. rewrite TB1.
+        repeat split; try assumption.
+        -- destruct ip; [congruence|reflexivity].
+        -- now rewrite TD1.
+      * destruct (is_dot d) eqn:Hd.
+        -- apply is_dot_eq in Hd. subst d.
+           pose proof (take_drop_while is_digit r1') as TD2.
+           pose proof (take_while_forallb is_digit r1') as TB2.
+           pose proof (stops_drop_while is_digit r1') as ST2.
+           set (fd := take_while is_digit r1') in *.
+           set (r2 := drop_while is_digit r1') in *.
+           pose proof (take_drop_while is_alpha r2) as TD3.
+           pose proof (take_while_forallb is_alpha r2) as TB3.
+           pose proof (stops_drop_while is_alpha r2) as ST3.
+           set (al := take_while is_alpha r2) in *.
+           intros H. injection H as H1 H2 H3. subst ty x rest.
+           exists (take_while is_blank s), (mk_ctok ip true fd al).
+           unfold ctok_str, ctok_ok_b. simpl. rewrite TB1, TB2, TB3.
+           repeat split; try assumption.
+           ++ destruct ip; [congruence|reflexivity].
+           ++ rewrite <- TD at 1. f_equal. rewrite <- TD1. rewrite <- !app_assoc. f_equal.
+              simpl. f_equal. rewrite <- TD2 at 1. rewrite <- app_assoc. f_equal. now rewrite TD3.
+           ++ unfold munch_end. simpl.
+              destruct (drop_while is_alpha r2) as [|y q] eqn:E3; [exact I|].
+              simpl in ST3. split; [assumption|]. intros Hal.
+              rewrite Hal in TD3. simpl in TD3. rewrite <- TD3 in ST2. exact ST2.
+        -- remember (d :: r1') as r2 eqn:Er2.
+           pose proof (take_drop_while is_alpha r2) as TD3.
+           pose proof (take_while_forallb is_alpha r2) as TB3.
+           pose proof (stops_drop_while is_alpha r2) as ST3.
+           set (al := take_while is_alpha r2) in *.
+           intros H. injection H as H1 H2 H3. subst ty x rest.
+           exists (take_while is_blank s), (mk_ctok ip false [] al).
+           unfold ctok_str, ctok_ok_b. simpl. rewrite TB1, TB3.
+           repeat split; try assumption.
+           ++ destruct ip; [congruence|reflexivity].
+           ++ rewrite <- TD at 1. f_equal. rewrite <- TD1. rewrite <- app_assoc. f_equal. now rewrite TD3.
+           ++ unfold munch_end. simpl.
+              destruct (drop_while is_alpha r2) as [|y q] eqn:E3; [exact I|].
+              simpl in ST3. split; [assumption|]. intros Hal.
+              rewrite Hal in TD3. simpl in TD3. rewrite <- TD3 in Er2. inversion Er2; subst.
+              try rewrite <- TD3 in ST1. simpl in ST1. cls. lia.
+Qed.
+
+Lemma last_non_newline_none : forall s, last_non_newline s = None -> forallb is_newline s = true.
+Proof.
+  induction s as [|c s IH]; simpl; intros H; [reflexivity|].
+  destruct (last_non_newline s) as [[c' r']|]; [discriminate|].
+  destruct (is_newline c); [now rewrite IH|discriminate].
+Qed.
+
+Lemma match_at_none_inv : forall s, match_at s = None -> forallb is_newline s = true.
+Proof.
+  intros s. unfold match_at.
+  destruct (drop_while is_blank s) as [|c r'].
+  - destruct (last_non_newline s) as [[c0 r0]|] eqn:L; [discriminate|]. intros _. now apply last_non_newline_none.
+  - destruct (is_hyphen c); [discriminate|]. destruct (is_digit_or_comma c); discriminate.
+Qed.
+
+(** the shape of every coordinate text on which the grammar succeeds *)
+Lemma expect_tokenize_inv : forall body a ob,
+  expect (tokenize body) = Some (a, ob) ->
+  exists w1 t1 w2 rest2,
+    forallb is_blank w1 = true /\ ctok_ok_b t1 = true /\ forallb is_blank w2 = true /\
+    body = w1 ++ ctok_str t1 ++ w2 ++ c_hyphen :: rest2 /\ ctok_val t1 = Some a /\
+    ((ob = None /\ forallb is_newline rest2 = true) \/
+     (exists w3 t2 junk b,
+        forallb is_blank w3 = true /\ ctok_ok_b t2 = true /\ rest2 = w3 ++ ctok_str t2 ++ junk /\
+        munch_end t2 junk /\ ctok_val t2 = Some b /\ ob = Some b /\ a <= b)).
+Proof.
+  intros body a ob. rewrite tokenize_eq.
+  destruct (match_at body) as [[[ty1 x1] r1]|] eqn:E1; [|discriminate].
+  destruct ty1; try discriminate.
+  apply match_at_inv in E1 as (w1 & t1 & Hw1 & Ht1 & -> & Hb & _).
+  cbn [expect]. rewrite parse_humanized_ctok by assumption.
+  destruct (ctok_val t1) as [a0|] eqn:V1; [|discriminate].
+  rewrite tokenize_eq.
+  destruct (match_at r1) as [[[ty2 x2] r2]|] eqn:E2; [|discriminate].
+  destruct ty2; try discriminate.
+  apply match_at_inv in E2 as (w2 & Hw2 & -> & Hr1).
+  rewrite tokenize_eq.
+  destruct (match_at r2) as [[[ty3 x3] r3]|] eqn:E3.
+  - destruct ty3; try discriminate.
+    apply match_at_inv in E3 as (w3 & t2 & Hw3 & Ht2 & -> & Hr2 & Hm).
+    rewrite parse_humanized_ctok by assumption.
+    destruct (ctok_val t2) as [b0|] eqn:V2; [|discriminate].
+    destruct (b0 <? a0) eqn:L; [discriminate|].
+    intros H; inversion H; subst a ob.
+    exists w1, t1, w2, r2. repeat split; try assumption; [now rewrite Hb, Hr1|].
+    right. exists w3, t2, r3, b0. repeat split; try assumption. lia.
+  - intros H; inversion H; subst a ob.
+    exists w1, t1, w2, r2. repeat split; try assumption; [now rewrite Hb, Hr1|].
+    left. split; [reflexivity|now apply match_at_none_inv].
+Qed.
+
+Lemma expect_tokenize_closed : forall w1 t1 w2 w3 t2 junk,
+  forallb is_blank w1 = true -> forallb is_blank w2 = true -> forallb is_blank w3 = true ->
+  ctok_ok_b t1 = true -> ctok_ok_b t2 = true -> munch_end t2 junk ->
+  expect (tokenize (w1 ++ ctok_str t1 ++ w2 ++ c_hyphen :: w3 ++ ctok_str t2 ++ junk))
+  = match ctok_val t1, ctok_val t2 with
+    | Some a, Some b => if b <? a then None else Some (a, Some b)
+    | _, _ => None
+    end.
+Proof.
+  intros w1 t1 w2 w3 t2 junk Hw1 Hw2 Hw3 Ht1 Ht2 Hj.
+  rewrite tokenize_eq, match_at_ctok; try assumption.
+  2:{ apply tok_end_blank; [assumption|apply tok_end_hyphen]. }
+  rewrite tokenize_eq, match_at_hyphen by assumption.
+  rewrite tokenize_eq, match_at_ctok_munch by assumption.
+  cbn [expect]. rewrite !parse_humanized_ctok by assumption.
+  destruct (ctok_val t1); [|reflexivity]. destruct (ctok_val t2); reflexivity.
+Qed.
+
+Lemma split_colon_unfold : forall s,
+  split_colon s = take_while notcolon s ::
+                  match drop_while notcolon s with [] => [] | _ :: r => split_colon r end.
+Proof.
+  induction s as [|c s IH]; [reflexivity|].
+  cbn [split_colon take_while drop_while]. unfold notcolon at 1 3.
+  destruct (is_colon c); cbn [negb]; [reflexivity|]. now rewrite IH.
+Qed.
+
+(** parse_region_string in terms of the three pieces  name ":" body [":" ...] *)
+Lemma parse_region_string_pieces : forall n0 body tail,
+  forallb notcolon n0 = true -> forallb notcolon body = true -> colon_tail tail ->
+  parse_region_string (n0 ++ c_colon :: body ++ tail) =
+  if is_nil (strip n0) then None
+  else match expect (tokenize body) with
+       | None => None
+       | Some (a, ob) => Some (strip n0, Some a, ob)
+       end.
+Proof.
+  intros n0 body tail Hn Hb Ht. rewrite parse_region_string_colon_gen by assumption.
+  now rewrite take_while_app_keep, take_notcolon_tail, app_nil_r by assumption.
+Qed.
+
+Lemma parse_region_string_pieces_inv : forall s c a ob,
+  parse_region_string s = Some (c, Some a, ob) ->
+  exists n0 body tail,
+    s = n0 ++ c_colon :: body ++ tail /\ forallb notcolon n0 = true /\ forallb notcolon body = true /\
+    colon_tail tail /\ strip n0 = c /\ c <> [] /\ expect (tokenize body) = Some (a, ob).
+Proof.
+  intros s c a ob. unfold parse_region_string. rewrite split_colon_unfold.
+  pose proof (take_drop_while notcolon s) as TD.
+  pose proof (take_while_forallb notcolon s) as TB.
+  destruct (is_nil (strip (take_while notcolon s))) eqn:N; [discriminate|].
+  destruct (drop_while notcolon s) as [|x r] eqn:E; [discriminate|].
+  pose proof (drop_while_head _ _ _ _ E) as Hx. unfold notcolon in Hx.
+  assert (x = c_colon) as -> by (apply is_colon_eq; now destruct (is_colon x)).
+  rewrite split_colon_unfold.
+  destruct (expect (tokenize (take_while notcolon r))) as [[a0 ob0]|] eqn:X; [|discriminate].
+  intros H; inversion H; subst c a ob.
+  exists (take_while notcolon s), (take_while notcolon r), (drop_while notcolon r).
+  repeat split; try assumption.
+  - now rewrite take_drop_while.
+  - apply take_while_forallb.
+  - pose proof (stops_drop_while notcolon r) as S. unfold colon_tail.
+    destruct (drop_while notcolon r); [exact I|]. simpl in S. unfold notcolon in S. now destruct (is_colon a).
+  - intros Y. now rewrite Y in N.
+Qed.
+
+Lemma forallb_app_inv : forall (p : ascii -> bool) a b, forallb p (a ++ b) = true -> forallb p a = true /\ forallb p b = true.
+Proof. intros p a b H. rewrite forallb_app in H. now apply andb_true_iff in H. Qed.
+
+(** THE ACCEPTED LANGUAGE (closed range): a string is accepted with (c, a, b) exactly when it is
+      n0 ":" w1 COORD w2 "-" w3 COORD junk tail
+    with n0 colon-free and strip n0 = c non-empty, w* blank, the two tokens valued a <= b, junk
+    colon-free text that cannot extend the second token, and tail empty or starting with ':' *)
+Theorem region_language_closed : forall s c a b,
+  parse_region_string s = Some (c, Some a, Some b) <->
+  exists n0 w1 t1 w2 w3 t2 junk tail,
+    s = n0 ++ c_colon :: (w1 ++ ctok_str t1 ++ w2 ++ c_hyphen :: w3 ++ ctok_str t2 ++ junk) ++ tail /\
+    forallb notcolon n0 = true /\ strip n0 = c /\ c <> [] /\
+    forallb is_blank w1 = true /\ forallb is_blank w2 = true /\ forallb is_blank w3 = true /\
+    ctok_ok_b t1 = true /\ ctok_ok_b t2 = true /\
+    forallb notcolon junk = true /\ munch_end t2 junk /\ colon_tail tail /\
+    ctok_val t1 = Some a /\ ctok_val t2 = Some b /\ a <= b.
+Proof.
+  intros s c a b. split.
+  - intros H. apply parse_region_string_pieces_inv in H as (n0 & body & tail & -> & Hn & Hb & Ht & Hs & Hc & X).
+    apply expect_tokenize_inv in X as (w1 & t1 & w2 & rest2 & Hw1 & Ht1 & Hw2 & -> & V1 & [[Hx _]|X]); [discriminate|].
+    destruct X as (w3 & t2 & junk & b0 & Hw3 & Ht2 & -> & Hm & V2 & Hob & Hab).
+    inversion Hob; subst b0.
+    exists n0, w1, t1, w2, w3, t2, junk, tail. repeat split; try assumption.
+    apply forallb_app_inv in Hb as [_ Hb]. apply forallb_app_inv in Hb as [_ Hb].
+    apply forallb_app_inv in Hb as [_ Hb]. simpl in Hb. try (apply andb_true_iff in Hb as [_ Hb]).
+    apply forallb_app_inv in Hb as [_ Hb]. now apply forallb_app_inv in Hb as [_ Hb].
+  - intros (n0 & w1 & t1 & w2 & w3 & t2 & junk & tail & -> & Hn & Hs & Hc & Hw1 & Hw2 & Hw3 & Ht1 & Ht2 & Hj & Hm & Ht & V1 & V2 & Hab).
+    rewrite parse_region_string_pieces; try assumption.
+    + rewrite Hs. destruct c; [congruence|]. simpl is_nil. cbv iota.
+      rewrite expect_tokenize_closed by assumption. rewrite V1, V2.
+      destruct (b <? a) eqn:L; [lia|reflexivity].
+    + rewrite !forallb_app. simpl. rewrite !forallb_app.
+      rewrite (blank_notcolon w1), (blank_notcolon w2), (blank_notcolon w3), (ctok_notcolon t1), (ctok_notcolon t2), Hj by assumption.
+      reflexivity.
+Qed.
+
+(** open end *)
+Theorem region_language_open : forall s c a,
+  parse_region_string s = Some (c, Some a, None) <->
+  exists n0 w1 t1 w2 nl tail,
+    s = n0 ++ c_colon :: (w1 ++ ctok_str t1 ++ w2 ++ c_hyphen :: nl) ++ tail /\
+    forallb notcolon n0 = true /\ strip n0 = c /\ c <> [] /\
+    forallb is_blank w1 = true /\ forallb is_blank w2 = true /\ forallb is_newline nl = true /\
+    ctok_ok_b t1 = true /\ colon_tail tail /\ ctok_val t1 = Some a.
+Proof.
+  intros s c a. split.
+  - intros H. apply parse_region_string_pieces_inv in H as (n0 & body & tail & -> & Hn & Hb & Ht & Hs & Hc & X).
+    apply expect_tokenize_inv in X as (w1 & t1 & w2 & rest2 & Hw1 & Ht1 & Hw2 & -> & V1 & [[_ Hnl]|X]).
+    + exists n0, w1, t1, w2, rest2, tail. repeat split; assumption.
+    + destruct X as (w3 & t2 & junk & b0 & _ & _ & _ & _ & _ & Hob & _). discriminate.
+  - intros (n0 & w1 & t1 & w2 & nl & tail & -> & Hn & Hs & Hc & Hw1 & Hw2 & Hnl & Ht1 & Ht & V1).
+    rewrite parse_region_string_pieces; try assumption.
+    + rewrite Hs. destruct c; [congruence|]. simpl is_nil. cbv iota.
+      rewrite tokenize_open by assumption. cbn [expect].
+      rewrite parse_humanized_ctok by assumption. now rewrite V1.
+    + rewrite !forallb_app. simpl.
+      rewrite (blank_notcolon w1), (blank_notcolon w2), (newline_notcolon nl), (ctok_notcolon t1) by assumption.
+      reflexivity.
+Qed.
+
+(** bare name; and no other form of result exists (see parse_region_string_sound) *)
+Theorem region_language_bare : forall s c,
+  parse_region_string s = Some (c, None, None) <->
+  forallb notcolon s = true /\ strip s = c /\ c <> [].
+Proof.
+  intros s c. split.
+  - unfold parse_region_string. rewrite split_colon_unfold.
+    pose proof (take_drop_while notcolon s) as TD.
+    destruct (is_nil (strip (take_while notcolon s))) eqn:N; [discriminate|].
+    destruct (drop_while notcolon s) as [|x r] eqn:E.
+    + rewrite app_nil_r in TD. rewrite TD in *. intros H; inversion H; subst c.
+      repeat split; [rewrite <- TD; apply take_while_forallb|]. intros Y. now rewrite Y in N.
+    + rewrite split_colon_unfold.
+      destruct (expect (tokenize (take_while notcolon r))) as [[a0 ob0]|]; discriminate.
+  - intros (Hn & Hs & Hc). unfold parse_region_string.
+    rewrite split_colon_nocolon by assumption. rewrite Hs. destruct c; [congruence|reflexivity].
+Qed.
